@@ -24,6 +24,23 @@ impl Notify {
 }
 #[verifier::external_body]
 pub struct AtomicBool { x: u8 }
+#[verifier::external_body]
+pub struct MemOrdering { x: u8 }
+impl AtomicBool { #[verifier::external_body] pub fn load(&self, o: MemOrdering) -> bool { unimplemented!() } }
+#[verifier::external_body]
+pub fn verif_acquire() -> MemOrdering { unimplemented!() }
+// ---- no-lost-wake-up model for wait_for_connection (as in unit routerrecv): `epoch` counts the peers added so far (other tasks bump it
+// at any time), a subscription remembers the epoch at which it was made, the emptiness check remembers the epoch at which it looked.
+// Parking is safe only on a subscription made (and enabled) no later than the check that found no peer: notify_waiters() stores no permit.
+pub struct Notified { pub since: Ghost<nat>, pub enabled: Ghost<bool> }
+impl Notified {
+  // R8: notified.as_mut().enable()
+  pub fn verif_enable(&mut self) ensures final(self).since == old(self).since, final(self).enabled@ { proof { self.enabled = Ghost(true); } }
+}
+#[verifier::external_body]
+pub async fn verif_wait_notified(n: &mut Notified, lb: &LoadBalancer) -> (r: ())
+  requires old(n).since@ <= lb.checked_at@     // subscribed no later than the check (tokio: a Notified receives notify_waiters() from its creation on)
+{ unimplemented!() }
 
 pub open spec fn uris(ps: Seq<Arc<Peer>>) -> Seq<Seq<char>> { ps.map_values(|p: Arc<Peer>| p.uri@) }
 pub open spec fn no_dup(s: Seq<Seq<char>>) -> bool { forall|i: int, j: int| 0 <= i < j < s.len() ==> s[i] != s[j] }
@@ -40,6 +57,18 @@ pub fn verif_position_uri(ps: &Vec<Arc<Peer>>, u: &str) -> (r: Option<usize>)
     r is None ==> !uris(ps@).contains(u@),
 { unimplemented!() }
 
+impl LoadBalancer {
+  // R8: `notify.notified()`
+  #[verifier::external_body]
+  pub fn verif_notified(&mut self) -> (n: Notified)
+    ensures n.since@ == final(self).epoch@, !n.enabled@, final(self).epoch@ >= old(self).epoch@, final(self).state == old(self).state, final(self).checked_at == old(self).checked_at
+  { unimplemented!() }
+  // R6/R8: `self.state.lock().peers.is_empty()` -- one critical section; remembers when it looked (peers may be added at any time: epoch moves on)
+  #[verifier::external_body]
+  pub fn verif_peers_empty(&mut self) -> (r: bool)
+    ensures r == (final(self).state.peers@.len() == 0), final(self).epoch@ >= old(self).epoch@, final(self).checked_at@ == final(self).epoch@
+  { unimplemented!() }
+}
 impl BalancerState {
   pub open spec fn wf(&self) -> bool {
     &&& no_dup(uris(self.peers@))
@@ -59,7 +88,7 @@ parts = [
   Item(LB, "struct", "Peer"),
   Item(LB, "struct", "BalancerState"),
   Item(LB, "struct", "LoadBalancer", extra=[("R6", "state: Mutex<BalancerState>", "state: BalancerState", 1), ("R5", "std::sync::atomic::AtomicBool", "AtomicBool", 1),
-                                           ("R5", "notify_waiters: Arc<Notify>", "notify_waiters: Notify", 1)]),
+                                           ("R5", "notify_waiters: Arc<Notify>", "notify_waiters: Notify, pub epoch: Ghost<nat>, pub checked_at: Ghost<nat>", 1)]),
   Raw(text=GLUE, label="lb-glue"),
   Fn(LB, "add_connection", impl=IMPL, emit_impl="impl LoadBalancer", sig_sub=SIG,
      requires=["old(self).state.wf()"],
@@ -116,6 +145,19 @@ parts = [
   Fn(LB, "connection_count", impl=IMPL, emit_impl="impl LoadBalancer",
      ensures=[("C13:value", "r == self.state.peers@.len()")],
      extra=[("R6", "self.state.lock().peers", "self.state.peers", 1)]),
+  Fn(LB, "wait_for_connection", impl=IMPL, emit_impl="impl LoadBalancer", sig_sub=SIG, attrs=["#[verifier::exec_allows_no_decreases_clause]"], safety_props=["C13"],
+     ensures=[("C13:returns_ok_only_when_a_peer_is_there", "r is Ok ==> final(self).state.peers@.len() > 0")],
+     extra=[("R2", re.compile(r'ZmqError::InvalidState\(\s*"([^"]*)"\.into\(\)\s*\)'), r'ZmqError::InvalidState("\1")', "*", "pre"),
+            ("R8", re.compile(r"let notify = self\.notify_waiters\.clone\(\);\s*\n"), "", 1),
+            # subscription-first form (after the repair) ...
+            ("R8", "let notified = notify.notified();", "let mut notified = self.verif_notified();", "*"),
+            ("R8", "tokio::pin!(notified);", "", "*"),
+            ("R8", "notified.as_mut().enable();", "notified.verif_enable();", "*"),
+            ("R8", re.compile(r"(?m)^(\s*)notified\.await;"), r"\1verif_wait_notified(&mut notified, &*self).await;", "*"),
+            # ... and the check-then-subscribe form: the subscription is made at the await itself
+            ("R8", "notify.notified().await;", "{ let mut vx_n = self.verif_notified(); verif_wait_notified(&mut vx_n, &*self).await; }", "*"),
+            ("R8", "self.deactivated.load(std::sync::atomic::Ordering::Acquire)", "self.deactivated.load(verif_acquire())", 1),
+            ("R6", "!self.state.lock().peers.is_empty()", "!self.verif_peers_empty()", 1)]),
 ]
 
 FNS = {p.name: p for p in parts if isinstance(p, Fn)}
